@@ -31,6 +31,12 @@ RULE = ('random module programs: create modules/parameters, assign attributes fr
         'either flag, the copies registered in other subtrees than their sources; then freeze / unfreeze / zero_grad on single owners and common '
         'ancestors, the requires_grad setter and the .grad setter on single objects, in any order; after every step the flags and gradients of ALL '
         'objects (sources included) are compared, and every object outside the parameters() of the node acted on must be exactly as it was. '
+        'REGISTERED NAMES are opaque strings: names drawn from atoms (identifiers, digits, the empty string) and dotted paths made of them, own members '
+        'named like the dot-joined path of a member further down (built on purpose one and two levels deep, parameter / submodule, attribute / register_* / '
+        'OrderedDict key); every listing (parameters, num_params, forward order, freeze / unfreeze / zero_grad) asked after every step. '
+        'GRAD-MODE CONTEXTS: programs of every family executed partly inside `with no_grad():` / `with retain_grads():` blocks (nested to depth 3, left '
+        'normally or by an exception): freeze / unfreeze / zero_grad / listings / counts / registration / the setters must not depend on the grad mode '
+        '(only an object CONSTRUCTED with requires_grad=True while autograd is off differs, and the model is told so). '
         'Non-trivial: the program shares or re-assigns at least one name.')
 EXHAUSTIVE = {'quick': False, 'thorough': False}
 ASSUMPTIONS = ['hierarchies are acyclic (a module is never made a descendant of itself)']
@@ -390,10 +396,175 @@ def gen_wrap_program(rng, tier):
     return ops, True
 
 
+ATOMS = ['a', 'b', '0', '1', 'w', '~']       # '~' stands for the empty string (a legal registered name; the protocol is space-separated)
+dec_name = lambda n: '' if n == '~' else n
+enc_name = lambda n: '~' if n == '' else n
+
+
+def qname(rng):
+    """a registered NAME: an atom (identifier, digits, the empty string) or a dotted path made of atoms ('a.0', '0.w', 'a..w', '.', 'a.',
+    '.w', 'a.b.w'): names are opaque strings for register_module / register_parameter / setattr / OrderedDict keys, so a name may EQUAL
+    the dot-joined path of some other member"""
+    if rng.chance(.45): return rng.pick(ATOMS)
+    return enc_name('.'.join(dec_name(rng.pick(ATOMS)) for _ in range(rng.randint(2, 3))))
+
+
+def gen_name_program(rng, tier):
+    """trees whose registered names come from qname(): own members named like the dotted path of a member further down ('head.scale' next to
+    submodule head owning scale; OrderedDict key 'stage1.0' next to submodule 'stage1' with member '0'), empty names, digits; a step `collide`
+    builds such a coincidence on purpose (one level and two levels deep, parameter against parameter, submodule against submodule). Every
+    listing is asked after every step: parameters, num_params, forward order of containers, freeze / unfreeze / zero_grad."""
+    reg = Registry()
+    ops = []
+    st = {'nm': 0, 'np': 0}
+    seqs = []
+    def emit(l):
+        ops.append(l); reg.run(l.split(' ')[1:])
+    def new_mod():
+        emit('mod new'); st['nm'] += 1; return st['nm'] - 1
+    def new_par():
+        emit(f'mod param {rng.randint(1, 5)} {rng.randint(0, 1)}'); st['np'] += 1; return st['np'] - 1
+    def attach_p(m, n, p):
+        emit(f'mod set {m} {n} p{p}' if rng.chance(.6) else f'mod regp {m} {n} {p}')
+    def attach_m(m, n, k):
+        emit(f'mod set {m} {n} m{k}' if rng.chance(.6) else f'mod regm {m} {n} {k}')
+    def collide():
+        cands = [(m, n1, k) for m in range(st['nm']) for n1, k in reg.subs[m] if reg.pars[k] or any(reg.pars[x] for _, x in reg.subs[k])]
+        if not cands: return False
+        m, n1, k = rng.pick(cands)
+        members = [('p', n2, x) for n2, x in reg.pars[k]] + [('m', n2, x) for n2, x in reg.subs[k] if reg.pars[x]]
+        kind, n2, x = rng.pick(members)
+        q = enc_name(dec_name(n1) + '.' + dec_name(n2))
+        if kind == 'p' or rng.chance(.3):
+            if kind == 'm': q = enc_name(dec_name(q) + '.' + dec_name(rng.pick(reg.pars[x])[0]))      # two levels joined into one name
+            attach_p(m, q, new_par())
+        else:
+            n3 = rng.pick(reg.pars[x])[0]
+            f = new_mod(); emit(f'mod set {f} {n3} p{new_par()}')      # a fresh leaf module (never given submodules: the tree stays acyclic)
+            leaves.add(f)
+            attach_m(m, q, f)
+        return True
+    leaves = set()
+    for b in range(rng.randint(2, 4)):
+        m = new_mod(); attach_p(m, qname(rng), new_par())
+    def observe(full=False):
+        qs = range(st['nm']) if full else rng.sample(range(st['nm']), min(st['nm'], 2)) + [st['nm'] - 1]
+        for q in qs:
+            ops.extend([f'mod params {q}', f'mod num {q}'])
+            if q in seqs: ops.append(f'mod order {q}')
+    for _ in range(rng.randint(4, 10 if tier == 'quick' else 20)):
+        r = rng.random()
+        nm = st['nm']
+        if r < .2:                             # a new parent over existing modules, members by attribute / register_module
+            m = new_mod()
+            for _ in range(rng.randint(1, 3)): attach_m(m, qname(rng), rng.randrange(m))
+            if rng.chance(.5): attach_p(m, qname(rng), new_par() if rng.chance(.7) else rng.randrange(st['np']))
+        elif r < .38:                          # a container: OrderedDict keys from the same pool, or positional
+            ks = [rng.randrange(nm) for _ in range(rng.randint(1, 4))]
+            if rng.chance(.75):
+                names = []
+                while len(names) < len(ks):
+                    n = qname(rng)
+                    if n not in names: names.append(n)
+                emit('mod seqd ' + ','.join(f'{n}:{k}' for n, k in zip(names, ks)))
+            else:
+                emit(f'mod seq {show_ints(ks)}')
+            seqs.append(nm); st['nm'] += 1
+        elif r < .68:
+            if not collide(): attach_p(rng.randrange(nm), qname(rng), new_par())
+        elif r < .76:
+            attach_p(rng.randrange(nm), qname(rng), new_par() if rng.chance(.6) else rng.randrange(st['np']))
+        elif r < .82:                          # a registered name replaced / removed
+            m = rng.randrange(nm)
+            have = [n for n, _ in reg.subs[m] + reg.pars[m]]
+            emit(f'mod set {m} {rng.pick(have) if have else qname(rng)} {rng.pick(["none", "other", "p" + str(rng.randrange(st["np"]))])}')
+        else:
+            m = rng.randrange(nm)
+            a = rng.pick(['freeze', 'unfreeze', 'zero', 'eval', 'train'])
+            if a == 'zero':
+                for p_ in range(st['np']): ops.append(f'mod gset {p_} {rng.randint(1, 9)}')
+            ops += [f'mod {a} {m}', 'mod flags', 'mod pflags', 'mod grads']
+        observe()
+    # the root of everything: one more parent over all modules built so far that may have parents
+    m = new_mod()
+    for k in rng.sample(range(m), min(m, rng.randint(1, 3))): attach_m(m, qname(rng), k)
+    collide()
+    observe(True)
+    top = st['nm'] - 1
+    for p_ in range(st['np']): ops.append(f'mod gset {p_} {rng.randint(1, 9)}')
+    ops += [f'mod freeze {top}', 'mod pflags', f'mod num {top}', f'mod unfreeze {top}', 'mod pflags', f'mod zero {top}', 'mod grads', f'mod num {top}']
+    return ops, True
+
+
+OBS_OPS = ('params', 'num', 'flags', 'pflags', 'grads', 'order')
+
+
+def with_contexts(rng, ops):
+    """the same program executed partly INSIDE grad-mode contexts: `with no_grad():` / `with retain_grads():` blocks entered and left (normally
+    or by an exception) at any point of the program, nested up to depth 3.  Module bookkeeping (listings, counts, freeze / unfreeze /
+    zero_grad, registration, modes) does not depend on the grad mode; the only thing that does is a tensor / parameter CONSTRUCTED with
+    requires_grad=True while autograd is off (marked ` ng`: the model is told the flag it ends up with)."""
+    out, stack = [], []
+    nm = 0
+    for l in ops:
+        t = l.split(' ')
+        if t[1] in ('new', 'seq', 'seqd', 'seqc'): nm += 1
+        if t[1] not in OBS_OPS or rng.chance(.15):
+            r = rng.random()
+            if r < .25 and len(stack) < 3:
+                k = rng.pick(['ng', 'ng', 'ng', 'rg']); out.append(f'mod ctx {k}'); stack.append(k)
+            elif r < .40 and stack:
+                out.append('mod ctx ' + rng.pick(['exit', 'exit', 'exitx'])); stack.pop()
+        if t[1] in ('param', 'tens') and 'ng' in stack: l += ' ng'
+        out.append(l)
+    if stack and nm:          # what was switched inside the block is still so after it
+        out += ['mod pflags'] + [f'mod num {m}' for m in range(nm)]
+    while stack:
+        out.append('mod ctx ' + rng.pick(['exit', 'exit', 'exitx'])); stack.pop()
+    out += ['mod pflags', 'mod grads', 'mod flags'] + [f'mod num {m}' for m in range(nm)] + [f'mod params {m}' for m in range(nm)]
+    return out
+
+
+def gen_ctx_program(rng, tier):
+    """a freeze / unfreeze / zero_grad / listing history on a small tree, most of it inside grad-mode contexts; and programs of every other
+    family run through with_contexts()"""
+    r = rng.random()
+    if r < .45:
+        nb = rng.randint(1, 3)
+        ops, npar = [], 0
+        for b in range(nb):
+            ops += ['mod new']
+            for _ in range(rng.randint(1, 2)):
+                ops += [f'mod param {rng.randint(1, 5)} {rng.randint(0, 1)}', f'mod set {b} {rng.pick(NAMES)}{npar} p{npar}']; npar += 1
+        ops.append('mod new')
+        for b in range(nb): ops.append(f'mod set {nb} c{b} m{b}')
+        nm = nb + 1
+        if rng.chance(.5):
+            ops.append(f'mod seq {show_ints([rng.randrange(nm) for _ in range(rng.randint(1, 3))])}'); nm += 1
+        for _ in range(rng.randint(4, 12 if tier == 'quick' else 30)):
+            a = rng.pick(['freeze', 'unfreeze', 'unfreeze', 'zero', 'freeze', 'unfreeze', 'psetrg', 'gset', 'param', 'eval', 'train'])
+            if a == 'psetrg': ops.append(f'mod psetrg {rng.randrange(npar)} {rng.randint(0, 1)}')
+            elif a == 'gset': ops.append(f'mod gset {rng.randrange(npar)} {rng.randint(1, 9)}')
+            elif a == 'param':
+                ops += [f'mod param {rng.randint(1, 5)} {rng.randint(0, 1)}', f'mod set {rng.randrange(nm)} n{npar} p{npar}']; npar += 1
+            else: ops.append(f'mod {a} {rng.randrange(nm)}')
+            ops += ['mod pflags', 'mod grads', f'mod num {rng.randrange(nm)}', f'mod params {rng.randrange(nm)}']
+    elif r < .6: ops, _ = gen_program(rng, rng.randint(5, 20), tier)
+    elif r < .7: ops, _ = gen_deep_program(rng)
+    elif r < .8: ops, _ = gen_coll_program(rng, tier)
+    elif r < .9: ops, _ = gen_wrap_program(rng, tier)
+    else: ops, _ = gen_name_program(rng, tier)
+    return with_contexts(rng, ops), True
+
+
 def to_model(line):
     """a live plain tensor that parameters are made from is, for the model, one more object with a size, a flag and a gradient (never
-    registered anywhere); the `requires_grad=` keyword of Parameter(tensor) is not consulted by the copy constructor"""
+    registered anywhere); the `requires_grad=` keyword of Parameter(tensor) is not consulted by the copy constructor.  Grad-mode contexts are
+    unknown to the model (module bookkeeping does not depend on them): a context line is answered like `mod flags` by both sides; an
+    object constructed while autograd is off (` ng`) does not require grad"""
     t = line.split(' ')
+    if t[1] == 'ctx': return 'mod flags'
+    if t[1] in ('tens', 'param') and t[-1] == 'ng': return ' '.join(['mod', 'param', t[2], '0'])
     if t[1] == 'tens': return ' '.join(['mod', 'param'] + t[2:])
     if t[1] == 'pwrap': return ' '.join(t[:3])
     return line
@@ -420,6 +591,12 @@ def cases(rng, tier):
     for i in range(60 if tier == 'quick' else 1500):
         ops, nt = gen_wrap_program(rng, tier)
         out.append({'lines': ops, 'nt': nt, 'family': 'wrapped-parameter', 'desc': ' ; '.join(ops[:60])})
+    for i in range(60 if tier == 'quick' else 1500):
+        ops, nt = gen_name_program(rng, tier)
+        out.append({'lines': ops, 'nt': nt, 'family': 'qualified-names', 'desc': ' ; '.join(ops[:60])})
+    for i in range(80 if tier == 'quick' else 2000):
+        ops, nt = gen_ctx_program(rng, tier)
+        out.append({'lines': ops, 'nt': nt, 'family': 'grad-mode-context', 'desc': ' ; '.join(ops[:60])})
     # corpus: minimal programs for each past defect
     corpus = [
         ['mod new', 'mod param 3 1', 'mod set 0 a p0', 'mod set 0 b p0', 'mod params 0', 'mod num 0'],
@@ -453,6 +630,21 @@ def cases(rng, tier):
                        'mod seqc 0', 'mod seqc 0', 'mod set 4 out m2', 'mod set 4 2 m2', 'mod order 3', 'mod params 3', 'mod num 3', 'mod order 4', 'mod params 4',
                        f'mod cput 0 {e1} 2', f'mod cdel 0 {e2}', f'mod cmove 0 {e3} 1', 'mod cput 0 0 2', 'mod order 3', 'mod params 3', 'mod order 4', 'mod params 4',
                        'mod freeze 4', 'mod pflags', 'mod eval 3', 'mod flags', 'mod seqc 0', 'mod order 5', 'mod params 5', 'mod order 3'])
+    # registered names that equal the dotted path of another member: OrderedDict key 'stage1.0' next to submodule 'stage1' with member '0';
+    # own parameter 'head.scale' next to submodule head owning scale; an empty name
+    asked = lambda m, np_: [f'mod params {m}', f'mod num {m}', f'mod freeze {m}', 'mod pflags', f'mod num {m}', f'mod unfreeze {m}'] + [f'mod gset {p} 3' for p in range(np_)] + [f'mod zero {m}', 'mod grads', 'mod pflags']
+    corpus += [
+        ['mod new', 'mod new', 'mod param 3 1', 'mod param 2 1', 'mod set 0 w p0', 'mod set 1 w p1', 'mod seq 0', 'mod seqd stage1:2,stage1.0:1', 'mod order 3'] + asked(3, 2),
+        ['mod new', 'mod param 2 1', 'mod set 0 scale p0', 'mod new', 'mod param 5 1', 'mod regp 1 head.scale 1', 'mod set 1 head m0'] + asked(1, 2),
+        ['mod new', 'mod param 2 1', 'mod set 0 ~ p0', 'mod new', 'mod param 4 0', 'mod set 1 ~ m0', 'mod set 1 . p1', 'mod new', 'mod set 2 a m1', 'mod param 1 1', 'mod regp 2 a.. 2'] + asked(2, 3),
+    ]
+    # a training stage switched inside the evaluation block: unfreeze / freeze / zero_grad / counts inside no_grad (nested, left by exception)
+    corpus += [
+        ['mod new', 'mod new', 'mod param 3 1', 'mod param 2 1', 'mod set 0 w p0', 'mod set 1 w p1', 'mod seq 0,1', 'mod freeze 0', 'mod ctx ng', 'mod order 2', 'mod pflags', 'mod freeze 1', 'mod pflags',
+         'mod unfreeze 0', 'mod pflags', 'mod num 2', 'mod unfreeze 2', 'mod pflags', 'mod num 2', 'mod ctx exit', 'mod pflags', 'mod num 2'],
+        ['mod new', 'mod param 3 0', 'mod set 0 w p0', 'mod ctx rg', 'mod ctx ng', 'mod ctx ng', 'mod unfreeze 0', 'mod pflags', 'mod ctx exitx', 'mod freeze 0', 'mod unfreeze 0', 'mod pflags', 'mod num 0',
+         'mod param 2 1 ng', 'mod set 0 v p1', 'mod pflags', 'mod unfreeze 0', 'mod pflags', 'mod gset 1 4', 'mod zero 0', 'mod grads', 'mod ctx exit', 'mod psetrg 0 0', 'mod psetrg 0 1', 'mod pflags', 'mod ctx exit', 'mod pflags', 'mod num 0'],
+    ]
     for ops in corpus:
         out.append({'lines': ops, 'nt': True, 'desc': ' ; '.join(ops)})
     return out
@@ -467,6 +659,10 @@ class World:
         self.mods, self.pars, self.log = [], [], []
         self.colls = []          # OrderedDicts / lists owned by the calling program
         self.depth, self.last_order = 0, None
+        self.ctxs = []           # grad-mode contexts the program is inside of
+        import sys
+        self.tmod = sys.modules.get('synapgrad.tensor')
+        self.modes0 = {k: getattr(self.tmod, k) for k in ('gradient__', 'retain_grads__') if hasattr(self.tmod, k)}
         w = self
         class M(nn.Module):
             """x -> x*a + b with a in {2, 1/2} and b = index + 1: no two different members commute"""
@@ -488,6 +684,13 @@ class World:
     @staticmethod
     def coef(k):
         return (2.0 if k % 2 == 0 else 0.5), float(k + 1)
+
+    def unwind(self):
+        """leave every context the program is still inside of (a program cut short by the oracle); the global switches as they were"""
+        while self.ctxs:
+            try: self.ctxs.pop().__exit__(None, None, None)
+            except Exception: pass
+        for k, v in self.modes0.items(): setattr(self.tmod, k, v)
 
     def val(self, v):
         if v == 'none': return None
@@ -511,17 +714,28 @@ class World:
             return f'p{len(self.pars) - 1}'
         if t[0] == 'psetrg':        # the setter on ONE object
             self.pars[int(t[1])].requires_grad = bool(int(t[2])); return 'ok'
+        if t[0] == 'ctx':           # with no_grad(): / with retain_grads(): entered, left, left by an exception; answered like `flags`
+            if t[1] in ('ng', 'rg'):
+                cm = self.sg.no_grad() if t[1] == 'ng' else self.sg.retain_grads()
+                cm.__enter__(); self.ctxs.append(cm)
+            else:
+                cm = self.ctxs.pop()
+                if t[1] == 'exitx':
+                    e = ValueError('raised inside the block')
+                    cm.__exit__(ValueError, e, None)
+                else: cm.__exit__(None, None, None)
+            return ','.join(str(int(x.training)) for x in self.mods) or '_'
         if t[0] == 'set':
-            setattr(self.mods[int(t[1])], t[2], self.val(t[3])); return 'ok'
+            setattr(self.mods[int(t[1])], dec_name(t[2]), self.val(t[3])); return 'ok'
         if t[0] == 'regm':
-            self.mods[int(t[1])].register_module(t[2], self.mods[int(t[3])]); return 'ok'
+            self.mods[int(t[1])].register_module(dec_name(t[2]), self.mods[int(t[3])]); return 'ok'
         if t[0] == 'regp':
-            self.mods[int(t[1])].register_parameter(t[2], self.pars[int(t[3])]); return 'ok'
+            self.mods[int(t[1])].register_parameter(dec_name(t[2]), self.pars[int(t[3])]); return 'ok'
         if t[0] == 'seq':
             ks = common.parse_ints(t[1])
             self.mods.append(self.S(*[self.mods[k] for k in ks])); return f'm{len(self.mods) - 1}'
         if t[0] == 'seqd':
-            d = OrderedDict() if t[1] == '_' else OrderedDict((nk.split(':')[0], self.mods[int(nk.split(':')[1])]) for nk in t[1].split(','))
+            d = OrderedDict() if t[1] == '_' else OrderedDict((dec_name(nk.split(':')[0]), self.mods[int(nk.split(':')[1])]) for nk in t[1].split(','))
             self.mods.append(self.S(d)); return f'm{len(self.mods) - 1}'
         if t[0] == 'cdict':
             self.colls.append(OrderedDict() if t[1] == '_' else OrderedDict((nk.split(':')[0], self.mods[int(nk.split(':')[1])]) for nk in t[1].split(',')))
@@ -600,8 +814,11 @@ class World:
 def impl(c):
     w = World()
     out = []
-    for line in c['lines']:
-        out.append(outcome(lambda: w.run(line)))
+    try:
+        for line in c['lines']:
+            out.append(outcome(lambda: w.run(line)))
+    finally:
+        w.unwind()
     c['_world'] = w
     return out
 
@@ -619,9 +836,22 @@ def distribution(cases):
         colls = []
         kinds, wrapped = [], set()
         nm = 0
+        stack = []
         for l in c['lines']:
             t = l.split(' ')
             inc(t[1])
+            if t[1] == 'ctx':
+                if t[2] in ('ng', 'rg'):
+                    stack.append(t[2]); inc('context entered: ' + ('no_grad' if t[2] == 'ng' else 'retain_grads') + f' at depth {len(stack)}')
+                else:
+                    stack.pop(); inc('context left ' + ('by an exception' if t[2] == 'exitx' else 'normally'))
+            elif stack:
+                inc(('inside no_grad: ' if 'ng' in stack else 'inside retain_grads: ') + t[1] + (' (constructed with requires_grad=True)' if t[-1] == 'ng' and t[3] == '1' else ''))
+            if t[1] in ('set', 'regm', 'regp') or t[1] == 'seqd':
+                names = [t[3]] if t[1] != 'seqd' else [nk.split(':')[0] for nk in t[2].split(',') if nk != '_']
+                for n in names:
+                    if n == '~': inc('registered name: empty string')
+                    elif '.' in n: inc('registered name: contains a dot')
             if t[1] == 'new': nm += 1
             if t[1] in ('cdict', 'clist'): colls.append([t[1][1:], 0, False])
             if t[1] in ('param', 'tens', 'pwrap'):
@@ -723,6 +953,13 @@ class Registry:
 
 def oracle(c):
     w = World()
+    try:
+        return _oracle(c, w)
+    finally:
+        w.unwind()
+
+
+def _oracle(c, w):
     reg = Registry()
     snap = lambda: [(id(p), bool(p.requires_grad), None if p._grad is None else np.array(p._grad, dtype=np.float64).ravel().tolist()) for p in w.pars]
     for li, line in enumerate(c['lines']):
@@ -744,6 +981,8 @@ def oracle(c):
                 return {'key': {'class': 'frame', 'op': t[1]}, 'case': {'lines': c['lines'][:li + 1]},
                         'what': f'{line} changed the {what} of p{k} ({b_[1:]} -> {a_[1:]}), which is not among the objects that call acts on'
                                 + (f' (the parameters() of m{t[2]})' if t[1] in ('freeze', 'unfreeze', 'zero') else '')}
+        if t[1] == 'psetrg' and r == 'ok' and after[int(t[2])][1] != bool(int(t[3])):
+            return {'key': {'class': 'setter'}, 'case': {'lines': c['lines'][:li + 1]}, 'what': f'{line}: requires_grad reads {after[int(t[2])][1]} after the assignment'}
         if t[1] == 'pwrap' and r != 'rejected' and len(after) == len(before) + 1:
             src = before[int(t[2])]
             if after[-1][1:] != src[1:] or after[-1][0] in [b_[0] for b_ in before]:
